@@ -53,6 +53,52 @@ var properties = map[string]Property{
 		Rules: []string{"O-MAPRANGE", "O-KEYSOURCE", "O-POOL", "O-LIFO", "O-SEQ", "R-EVAL-WRITE", "G-IMPORTS"},
 		Explanation: "Decided (nearly the whole property, because order is structural in this code): every map range reachable during evaluation only stores the keys at consecutive indices of a slice resliced to len(map), and every path from the end of that loop to the function's return applies an ascending byte-wise string sort to that slice or passes the false edge of len(map) > 1; callers of the key accessor only read the slice, index the same map with its elements and release it after the loop (no use after release); every loop in the evaluation steps is a complete ascending loop (or the worklist's complete descending push loop) whose only exit is the loop condition; recursive descent takes W[len-1], shrinks W[:len-1], pushes children from len-1 down to 0 and never applies the next step after pushing. reflect.MapKeys/MapRange are outside the modelled reflect subset (G-IMPORTS). Not decided: nothing of substance; assumes sort.StringSlice.Sort sorts byte-wise.",
 	},
+	"C03": {
+		Level: "other",
+		Rules: []string{"P-POST-NONEMPTY", "P-RTERR", "P-PANICTYPE", "P-ASSERT", "P-NILGUARD", "P-IFACE-EQ", "V-VALIDATED", "V-ACCEPT", "P-SCT", "O-SEQ", "G-IMPORTS"},
+		Explanation: "Decided (structural part): (i) every return of a retrieve-family function is a fresh error value, the result of a step on the same sink, a variable proven non-nil, or nil on a path where the sink is known non-empty (must-analysis over appends and len(result)>0 edges), so success is never empty and every result[0] read follows a successful step; (ii) only the three documented runtime error types are converted to the runtime-error interface, each implements error, and ErrorFunctionFailed is built only under a non-nil error of a user-function call; (iii) no explicit panic in evaluation code, reflect.TypeOf(x) dereferenced only under x != nil, every unchecked assertion is a pool element, a runtime error asserted to error, or a validated comparator operand, and every interface comparison has a nil / comparable-concrete operand or validated operands; (iv) recursion cycles descend on the tree and loops are counted/range/worklist loops. Not decided: index expressions of the filter list protocol (valueList[0], left[index] in AND/OR, rightValues[0]) whose safety needs a relational length invariant (assumed); subscript arithmetic (overflow / range) is decided under C11; time bounds beyond termination.",
+		Assumptions: []string{"assumed obligations: the list-length protocol of filter evaluation (every computed list has length 1 or the member count)"},
+	},
+	"C08": {
+		Level: "other",
+		Rules: []string{"N-FORWARD", "N-DEEPEST", "O-SEQ", "B-CHAIN", "G-IMPORTS"},
+		Explanation: "Decided (structural part): every call of a step (retrieve on the next node, or one of the retrieve-family helpers) passes the caller's own root and the caller's own sink (or a private pooled sink), the emitters hand the next step exactly the value they would emit themselves (container[key] of their parameters); fan-out loops are complete and leave only through their loop condition, branch errors are only accumulated through the deepest-error helper; the chain builder re-assigns its link target from the current step on every iteration. Not decided (the behavioural statement itself): that the builder links `next` to Q on every branch (the live `$..['a','b'].c` defect is there) and the relational equality of the three retrievals.",
+	},
+	"C09": {
+		Level: "other",
+		Rules: []string{"V-OPS", "V-SINGLE-RIGHT", "V-VALIDATED", "G-IMPORTS"},
+		Explanation: "Decided (structural part): each ordering builder realises one operator on every path — straight operands with its own comparator, exchanged operands with the mirror comparator — and the four operators are each realised by exactly one builder; every comparator's loop keeps exactly the elements for which `element OP right` holds and blanks the others; `!=` is NOT(==) over the same operands in order; no comparison is built with a per-member operand on the right of a member-independent one (evaluation reads only right[0]). Not decided: the Boolean-algebra clause (index-wise merge of per-member lists in AND/OR/NOT, the length-1 whole-match convention) and the token-to-builder wiring of the grammar (checked under C17's translation validation once built).",
+	},
+	"C10": {
+		Level: "other",
+		Rules: []string{"V-ACCEPT", "V-LITERAL", "V-VALIDATED", "V-SINGLE-RIGHT", "G-IMPORTS"},
+		Explanation: "Decided (structural part): every validator keeps exactly one JSON type on all paths (numeric: float64, with json.Number converted on every path), blanks everything else with the absence marker, reports 'found' exactly for kept elements and visits every element; each literal kind (float64, bool, string, nil) selects the direct-equality comparator with the validator keeping that kind, non-literals use reflect.DeepEqual with the permissive validator; ordering and regex comparators assert exactly the type their embedded validator keeps, after skipping the marker; the comparator call is dominated by successful validation of both operand lists. Not decided: which operand ends up on the right when both are non-member operands (the live `$.a == 1` vs `1 == $.a` json.Number discrepancy) and DeepEqual's numeric semantics across decodings.",
+	},
+	"C12": {
+		Level: "other",
+		Rules: []string{"N-ACCESS", "N-ACCFLAG", "G-IMPORTS"},
+		Explanation: "Decided (structural part): each of the three emission sites has one plain and one accessor branch selected by the node's own flag, and the accessor's Get re-reads exactly the location (or value) the plain branch emits; the flag-clearing pass sets the flag on every node it walks over and covers every retrieve edge that emits into the parent's sink (inner identifiers of a multi-name selector, its union twin); every place that attaches a chain as function argument or filter operand clears the flag on it. Not decided: equality of the two result sequences as such.",
+	},
+	"C13": {
+		Level: "other",
+		Rules: []string{"N-ACCESS", "N-FORWARD", "R-SET-USERONLY", "G-IMPORTS"},
+		Explanation: "Decided (large structural part): at the map and list emission sites Get is the single expression container[key] and Set is exactly one assignment container[key] = value, both on the very container and key variables (captured once, never re-assigned) that the plain branch reads; at the any-value site Get returns the captured value and Set is nil; the value forwarded to the next step is the emitted one; the library never calls the closures it hands out. Not decided: that the accessor at result index i belongs to the location a specification predicts.",
+	},
+	"C14": {
+		Level: "other",
+		Rules: []string{"N-FUNCALL", "N-FORWARD", "P-RTERR", "O-POOL", "B-CHAIN", "G-IMPORTS"},
+		Explanation: "Decided (structural part): a function node calls its user function at exactly one site, outside loops; the filter function receives the node's current value; the aggregate receives the list of its private pooled sink, or element 0 as an array only under the parameter's value-group test being false and a successful checked assertion; the function's result is what is forwarded; ErrorFunctionFailed is built only when that call returned an error; the chain builder keeps its link target on the step just processed (so a step after an aggregate is linked behind the aggregate). Not decided: that the value-group flag is correct for the chain (the live `$.a.*.f()` defect), lookup order of function names (checked with the grammar actions once built).",
+	},
+	"C15": {
+		Level: "other",
+		Rules: []string{"N-KIND", "P-NILGUARD", "P-RTERR", "N-DEEPEST", "G-IMPORTS"},
+		Explanation: "Decided (structural part): every type-mismatch error is built under failed type tests of the node's current value, its expected-kind text is in one-to-one correspondence with the set of container kinds the node navigates, its found text is a constant for nil and reflect.TypeOf(current).String() of that same value under a nil guard, and it references the raising node's own descriptor; inside fan-out loops the surviving error is chosen only by the deepest-error helper. Not decided: which of several branch errors is reported (depends on text lengths / traversal order).",
+	},
+	"C20": {
+		Level: "other",
+		Rules: []string{"P-SENTINEL", "P-IFACE-EQ", "P-ASSERT", "P-NILGUARD", "N-KIND", "V-ACCEPT", "V-VALIDATED", "G-IMPORTS"},
+		Explanation: "Decided (large structural part): the absence marker has a package-private named comparable type; every interface ==/!= reachable during evaluation has a nil / comparable-concrete operand or operands validated to a JSON scalar type; every unchecked type assertion is justified; navigation only type-tests for the two JSON container types and reports other values by reflect type under a nil guard; validators blank every foreign type. Not decided: reflect.DeepEqual's behaviour on exotic values, what user functions do with opaque values.",
+	},
 	"C19": {
 		Level: "other",
 		Rules: []string{"R-RESET", "R-PEGRESET", "R-CONFIG", "R-TREE-CLOSED", "R-LOCK", "R-GLOBALS", "R-ENGINE", "G-IMPORTS"},
